@@ -1,27 +1,47 @@
 #!/usr/bin/env python3
 """Run all 20 checks on a scratch copy of /repo with each given patch file applied; print SILENT/ALARM per patch (ad-hoc false-alarm probe
-for behaviour-preserving patches produced outside the corpus). usage: try_patches.py file.diff ..."""
+for behaviour-preserving patches produced outside the corpus). usage: try_patches.py [-j N] file.diff ..."""
 import os, subprocess, sys, tempfile, shutil, re
+from concurrent.futures import ThreadPoolExecutor
 VERIF = os.path.dirname(os.path.dirname(os.path.abspath(__file__)))
 REPO = os.environ.get("BT_REPO", "/repo")
 PROPS = ["C%02d" % i for i in range(1, 21)]
-for pf in sys.argv[1:]:
+
+
+def one(pf):
     d = tempfile.mkdtemp(prefix="btverif-try-")
     out = tempfile.mkdtemp(prefix="btverif-out-")
     try:
         subprocess.run(["rsync", "-a", "--exclude", "target", "--exclude", ".git", REPO + "/", d + "/"], check=True)
         r = subprocess.run(["git", "apply", "--whitespace=nowarn", os.path.abspath(pf)], cwd=d, capture_output=True, text=True)
         if r.returncode != 0:
-            print("SKIPPED %s: %s" % (pf, r.stderr.strip()[:160]))
-            continue
-        alarms = []
+            return "SKIPPED %s: %s" % (pf, r.stderr.strip()[:160])
+        alarms, und = [], 0
         for p in PROPS:
             c = subprocess.run([os.path.join(VERIF, "check"), p, "--repo", d, "--outroot", out], capture_output=True, text=True)
+            und += c.stdout.count("?? undecided here")
             if c.returncode != 0:
                 fired = re.findall(r"^\s+\[FAIL\]\s+(\S+)", c.stdout, re.M)
                 first = re.findall(r"^\s+-> (.*)$", c.stdout, re.M)
                 alarms.append("%s:%s (%s)" % (p, ",".join(fired), first[0][:200] if first else "rc=%d %s" % (c.returncode, (c.stderr or c.stdout)[-200:])))
-        print(("ALARM   %s  %s" % (pf, "; ".join(alarms))) if alarms else "SILENT  %s" % pf)
+        return ("ALARM   %s  %s" % (pf, "; ".join(alarms))) if alarms else "SILENT  %s%s" % (pf, "  (%d undecided clause reports)" % und if und else "")
     finally:
         shutil.rmtree(d, ignore_errors=True)
         shutil.rmtree(out, ignore_errors=True)
+
+
+def main():
+    args = sys.argv[1:]
+    j = 6
+    if args and args[0] == "-j":
+        j = int(args[1]); args = args[2:]
+    bad = 0
+    with ThreadPoolExecutor(j) as ex:
+        for line in ex.map(one, args):
+            print(line, flush=True)
+            bad += line.startswith("ALARM")
+    return 1 if bad else 0
+
+
+if __name__ == "__main__":
+    sys.exit(main())
